@@ -61,6 +61,9 @@ fn apply_cfg(ctx: &mut Context, cfg: &Value) {
 fn set_switches(cfg: &Value) {
     boa_engine::verif::set_ic_disabled(cfg.get("ic_off").and_then(Value::as_bool).unwrap_or(false));
     boa_gc::verif::set_stress(cfg.get("gc").and_then(Value::as_u64).unwrap_or(0));
+    let b = |k: &str| cfg.get(k).and_then(Value::as_bool).unwrap_or(false);
+    boa_engine::ast::verif::set_force_escape(b("force_escape"));
+    boa_engine::verif::set_compiler_switches(b("no_const_cache"), b("no_hoist"), b("no_fusion"));
 }
 
 fn eval_step(ctx: &mut Context, step: &Value) -> JsResult<JsValue> {
